@@ -76,6 +76,9 @@ func (c wkClass) pod(i int) world.PodSpec {
 			ns = "ns2"
 		}
 		return world.PodSpec{Name: "a-1", NS: ns, OwnerKind: "StatefulSet", OwnerName: "a", Policy: c.Policy}
+	case "dppoolu":
+		// deployment pods in a pool whose (free-text) name contains the key separator
+		return world.PodSpec{Name: fmt.Sprintf("d-r1-%c", 'x'+rune(i)), NS: "ns", OwnerKind: "ReplicaSet", OwnerName: "d-r1", Policy: c.Policy, Pool: "p_l"}
 	case "stspfx":
 		// statefulset pods whose names (and therefore keys) are in a prefix relation: a-1 and a-10
 		return world.PodSpec{Name: []string{"a-1", "a-10"}[i%2], NS: "ns", OwnerKind: "StatefulSet", OwnerName: "a", Policy: c.Policy}
@@ -100,7 +103,7 @@ func (c wkClass) setWorkload(w *world.World, replicas int) {
 		w.SetStatefulSet("ns2", "a", 2)
 	case "sts", "stsmulti", "stspool", "stspfx":
 		w.SetStatefulSet("ns", "a", replicas)
-	case "dp", "dppool":
+	case "dp", "dppool", "dppoolu":
 		w.SetDeployment("ns", "d", replicas)
 	}
 }
